@@ -1,3 +1,4 @@
+import IprProofs.PrinterMono
 import IprProofs.PrinterGood
 import IprProofs.PrinterIndent
 import IprProofs.PrinterFuel
@@ -25,6 +26,19 @@ theorem C18_fuel {h : Heap} {rank : Addr → Nat} (hr : Ranked h rank) (o : Opts
 theorem C18_fuel_print {h : Heap} {rank : Addr → Nat} (hr : Ranked h rank) (o : Opts) (n : Nat) (route : Route) (root : Addr)
     (fmt : Fmt) (hn : 8 * (rank root + 1) ≤ n) : (print h o n route root fmt).status ≠ .fuel :=
   dispatch_noFuel' hr o n route.entry root _ hn
+
+/-- **The fuel is not observable.**  A print that ends without exhausting its fuel gives the very same result — text,
+    printer state, outcome — with every larger amount of fuel: the fuel argument only makes the model total. -/
+theorem C18_fuel_irrelevant (h : Heap) (o : Opts) (n m : Nat) (hnm : n ≤ m) (route : Route) (root : Addr) (fmt : Fmt)
+    (hne : (print h o n route root fmt).status ≠ .fuel) : print h o m route root fmt = print h o n route root fmt :=
+  dispatch_stable o n m hnm route.entry root _ hne
+
+/-- Hence on an acyclic graph any two sufficient amounts of fuel print alike: *the* printed text of a node is well defined. -/
+theorem C18_print_well_defined {h : Heap} {rank : Addr → Nat} (hr : Ranked h rank) (o : Opts) (n m : Nat) (route : Route)
+    (root : Addr) (fmt : Fmt) (hn : 8 * (rank root + 1) ≤ n) (hm : 8 * (rank root + 1) ≤ m) :
+    print h o n route root fmt = print h o m route root fmt := by
+  have h0 := C18_fuel_print hr o (8 * (rank root + 1)) route root fmt (Nat.le_refl _)
+  rw [C18_fuel_irrelevant h o _ n hn route root fmt h0, C18_fuel_irrelevant h o _ m hm route root fmt h0]
 
 /-- The fuel the model driver hands out — `8·(number of nodes + 1)` — suffices whenever the rank is bounded by the number of
     nodes (the longest operand path of a finite acyclic graph is). -/
